@@ -143,7 +143,6 @@ func (g *Graph) Image(docker bool, config *Node, layers []*Node, foreign map[int
 	for i, l := range layers {
 		x := g.dd(l)
 		if foreign[i] {
-			x.Data = nil
 			x.URLs = []string{"http://external.example/" + l.Digest}
 			x.MediaType = "application/vnd.docker.image.rootfs.foreign.diff.tar.gzip"
 		}
